@@ -550,7 +550,7 @@ def run(ctx):
     rot = (ctx.seed - 1) % max(1, len(rest))
     rest = rest[rot:] + rest[:rot]
     order = first + rest
-    budget = 40 if ctx.quick else 420
+    budget = 38 if ctx.quick else 300
     mine = [allv[i] for j, i in enumerate(order) if j % nw == me]
     rounds = 0
     complete = 0
@@ -617,5 +617,5 @@ def run(ctx):
                 ctx.count("variants_enumerated_completely")
                 ctx.count("variant_complete: %s v%d %s" % variant)
         rounds += 1          # time left: enumerate the same variants again under another seed
-    ctx.floor_distinct = 40 if ctx.quick else 3000
+    ctx.floor_distinct = 40 if ctx.quick else 1500
     ctx.floor_counters = {"shutdown_injections": 40, "variants_started": 2, "connections_judged": 150}
